@@ -81,7 +81,8 @@ void fp_rdc_monty_basic(fp_t c, dv_t a) {
 	u0 = *(fp_prime_get_rdc());
 
 	for (i = 0; i < RLC_FP_DIGS; i++, a++) {
-		r = (dig_t)(*a * u0);
+		/* 1U: digits narrower than int must not be multiplied as (signed) int. */
+		r = (dig_t)(1U * *a * u0);
 		*a = fp_mula_low(a, fp_prime_get(), r);
 	}
 	fp_addm_low(c, a, a - RLC_FP_DIGS);
